@@ -98,6 +98,42 @@ Theorem c30_place_phi_nodes_fixed_order_independent :
 Proof. exact place_phi_nodes_fixed_order_independent. Qed.
 Print Assumptions c30_place_phi_nodes_fixed_order_independent.
 
+(* ---- OrderedSet.__reversed__ : as implemented it yields the first key only (defect of the class; unused in ppci) ---- *)
+Theorem c30_orderedset_reversed_refuted : exists s, NoDup s /\ os_reversed s <> rev (os_iter s).
+Proof. exact os_reversed_refuted. Qed.
+Print Assumptions c30_orderedset_reversed_refuted.
+
+Theorem c30_orderedset_reversed_first_only : forall s, os_reversed s = match s with [] => [] | x :: _ => [x] end.
+Proof. exact os_reversed_first_only. Qed.
+Print Assumptions c30_orderedset_reversed_first_only.
+
+Theorem c30_orderedset_reversed_fixed : forall s, os_reversed_fixed s = rev (os_iter s).
+Proof. exact os_reversed_fixed_correct. Qed.
+Print Assumptions c30_orderedset_reversed_fixed.
+
+(* ---- burg: BurgSystem.check_tree_defined iterates a set of str (PYTHONHASHSEED dependent order) ---- *)
+Theorem c30_burg_check_order_independent : forall names names' symbols, Permutation names names' ->
+  (check_tree_defined names symbols = Ok tt <-> check_tree_defined names' symbols = Ok tt).
+Proof. exact burg_check_order_independent. Qed.
+Print Assumptions c30_burg_check_order_independent.
+
+Theorem c30_burg_check_reports_undefined : forall names symbols n,
+  check_tree_defined names symbols = Diag n -> In n names /\ mem n symbols = false.
+Proof. exact burg_check_reports_undefined. Qed.
+Print Assumptions c30_burg_check_reports_undefined.
+
+Theorem c30_burg_check_message_order_relevant : exists names names' symbols,
+  Permutation names names' /\ check_tree_defined names symbols <> check_tree_defined names' symbols.
+Proof. exact burg_check_message_order_relevant. Qed.
+Print Assumptions c30_burg_check_message_order_relevant.
+
+(* ---- relooper (wasm / python back ends): StructureDetector.follows_loop ---- *)
+Theorem c30_relooper_follows_loop_order_independent : forall succ succ' ln ln' sdom,
+  Permutation ln ln' -> (forall n, Permutation (succ n) (succ' n)) ->
+  follows_loop succ ln sdom = follows_loop succ' ln' sdom.
+Proof. exact follows_loop_order_independent. Qed.
+Print Assumptions c30_relooper_follows_loop_order_independent.
+
 (* hypotheses are inhabited: a history with every kind of operation has a specified result, and the
    repaired place_phi_nodes terminates with the same answer for the two enumerations of the refutation *)
 Example c30_nonvacuous :
@@ -106,5 +142,7 @@ Example c30_nonvacuous :
   /\ snd (run [OAdd 4; OPop; OPop]) = [ONone; OVal 4; OKeyError]
   /\ place_phi_nodes_fixed (fun s => s) df_ex (fun b => b) 10 [1] = Ok [(2, 0); (3, 1)]
   /\ place_phi_nodes_fixed (@rev Z) df_ex (fun b => b) 10 [1] = Ok [(2, 0); (3, 1)]
+  /\ follows_loop (fun n => if n =? 1 then [2; 5] else if n =? 2 then [1; 5] else []) [1; 2] (fun _ => false) = Ok (Some 5)
+  /\ check_tree_defined [3; 4] [4; 3; 9] = Ok tt
   /\ assign_color [10; 11; 12] (fun r => if r =? 10 then Some [10; 20] else None) [Some 10; None; Some 12] = Some 11.
 Proof. vm_compute. repeat split. Qed.
